@@ -247,7 +247,8 @@ def handshake_cases(draw):
         lines[i] = lines[i] + "\udcff"  # encoded with surrogateescape below -> raw 0xff
     elif mut == "content-length":
         lines[0] = "HTTP/1.1 " + draw(st.sampled_from(["404 Not Found", "500 Oops", "200 OK", "400"]))
-        lines.append("Content-Length: " + draw(st.sampled_from(["5", "0", "-1", "abc", "1e3", "99999999999", "18446744073709551616", " 7", "5, 5", "", "٣", "0x10", "1_0"])))
+        lines.append("Content-Length: " + draw(st.sampled_from(["5", "0", "-1", "abc", "1e3", "99999999999", "18446744073709551616", " 7", "5, 5", "", "٣", "0x10", "1_0",
+                                                                "9" * 4300, "9" * 4301, "1" + "0" * 5000, "0" * 4400 + "5"])))  # (beyond the interpreter's int-string conversion limit)
     elif mut == "redirect":
         lines[0] = "HTTP/1.1 " + draw(st.sampled_from(["301 Moved", "302 Found", "303", "307 T", "308 P"]))
         loc = draw(st.sampled_from([None, "", "ws://next.test/ok", "http://next.test/", "/relative", "garbage", "ws://", "ws://:99", "ws://h:port/", "wss://next.test:70000/", "://x", "ws://[::1", "\x00", "ws://next.test/\udcff"]))
